@@ -283,6 +283,10 @@ static void keys_mode(void)
           if (memcmp(out, key, 16)) hx_fail("masked-key:128", "randomize changes the key value (tape %s)", tname[tm]);
           if (tm == T_MIX) for (int w = 0; w < 2; w++) for (int s = 0; s < ASCON_MASKED_KEY_SHARES; s++) if (k->k[w].S[s] == before.k[w].S[s]) hx_fail("masked-key:128:randomize-share", "randomize with a generic tape left share %d of key word %d unchanged", s, w);
           ascon_masked_key_128_randomize(k); ascon_masked_key_128_extract(k, out); if (memcmp(out, key, 16)) hx_fail("masked-key:128", "public randomize changes the key value");
+          /* the re-randomised key object must still compute the unmasked function */
+          { uint8_t e[64], c[64], msg[20], nn[16]; size_t cl; hx_fill(msg, 20, HX_P_DENSE, 4); hx_fill(nn, 16, HX_P_DENSE, 2);
+            for (int al = 0; al < 2; al++) { api_aead_enc[al](e, &cl, msg, 13, msg, 5, nn, key); api_masked_enc[al](c, &cl, msg, 13, msg, 5, nn, k); if (memcmp(c, e, 29)) hx_fail("masked-key:128:use-after-randomize", "masked encryption with a re-randomised key differs from the unmasked function (alg %s, tape %s)", api_alg_name[al], tname[tm]);
+              size_t ml; uint8_t p[32]; if (api_masked_dec[al](p, &ml, e, 29, msg, 5, nn, k) != 0) hx_fail("masked-key:128:use-after-randomize", "masked decryption with a re-randomised key rejects a valid packet"); } }
           if (!hx_buf_ok((uint8_t *)k, sizeof *k)) hx_fail("masked-key:128", "wrote outside the key object"); ascon_masked_key_128_free(k); hx_free((uint8_t *)k); }
         { ascon_masked_key_160_t *k = (ascon_masked_key_160_t *)hx_buf(sizeof *k), before; ascon_masked_key_160_init(k, key); ascon_masked_key_160_extract(k, out); n++;
           if (memcmp(out, key, 20)) hx_fail("masked-key:160", "mask then extract is not the identity (tape %s)", tname[tm]);
@@ -290,6 +294,10 @@ static void keys_mode(void)
           if (memcmp(out, key, 20)) hx_fail("masked-key:160", "randomize changes the key value (tape %s)", tname[tm]);
           if (tm == T_MIX) for (int w = 0; w < 6; w++) for (int s = 0; s < ASCON_MASKED_KEY_SHARES; s++) if (k->k[w].S[s] == before.k[w].S[s]) hx_fail("masked-key:160:randomize-share", "randomize with a generic tape left share %d of key word %d unchanged", s, w);
           ascon_masked_key_160_randomize(k); ascon_masked_key_160_extract(k, out); if (memcmp(out, key, 20)) hx_fail("masked-key:160", "public randomize changes the key value");
+          { uint8_t e[64], c[64], msg[20], nn[16]; size_t cl, ml; uint8_t p[32]; hx_fill(msg, 20, HX_P_DENSE, 4); hx_fill(nn, 16, HX_P_DENSE, 2);
+            api_aead_enc[2](e, &cl, msg, 13, msg, 5, nn, key); api_masked_enc[2](c, &cl, msg, 13, msg, 5, nn, k);
+            if (memcmp(c, e, 29)) hx_fail("masked-key:160:use-after-randomize", "masked ASCON-80pq encryption with a re-randomised key differs from the unmasked function (tape %s)", tname[tm]);
+            if (api_masked_dec[2](p, &ml, e, 29, msg, 5, nn, k) != 0) hx_fail("masked-key:160:use-after-randomize", "masked ASCON-80pq decryption with a re-randomised key rejects a valid packet"); }
           if (!hx_buf_ok((uint8_t *)k, sizeof *k)) hx_fail("masked-key:160", "wrote outside the key object"); ascon_masked_key_160_free(k); hx_free((uint8_t *)k); }
     }
     hx_stat("evaluations", n); hx_stat("nontrivial", n);
